@@ -33,6 +33,7 @@ func c02(c *core.Check) {
 	c02PrefixAppend(c)
 	c02EarlierBreakKeys(c)
 	c02WordPrefix(c)
+	c02FixedHeightOverflow(c)
 }
 
 func isResumeStack(t types.Type) bool {
